@@ -36,6 +36,13 @@ for m in sorted(glob.glob(os.path.join(V, "seeded/*/meta.json"))):
     bp = os.path.join(os.path.dirname(m), "baseline.txt")
     base = open(bp).read().strip().replace("|", "/") if os.path.exists(bp) else "not run"
     out.append(f"| `{name}` | {d['property']} | {d['needs_to_manifest'].replace('|', '/')} | {d.get('detection','')}: {d['caught_by'].replace('|', '/')} | {base} |")
+out += ["", "### 7b. Behaviour-preserving refactorings (fresh agents, property text only) and what the checks said", "",
+        "Two harmless rewrites of the anchored code per property (same tests passing, same behaviour); the wanted outcome "
+        "is exit 0. Kept under `refactors/<name>/`.", "",
+        "| refactoring | property | outcome |", "|---|---|---|"]
+for m in sorted(glob.glob(os.path.join(V, "refactors/*/meta.json"))):
+    d = json.load(open(m))
+    out.append(f"| `{os.path.basename(os.path.dirname(m))}` | {d['property']} | {d['result'].replace('|', '/')} |")
 out += ["", "---", "", open(os.path.join(V, "meta/design/tail.md")).read().rstrip(), ""]
 open(os.path.join(V, "DESIGN.md"), "w").write("\n".join(out))
 print("DESIGN.md written:", sum(len(x) for x in out), "chars")
